@@ -189,6 +189,8 @@ func runStruct[T any](k *vlib.Case, typ string, gen func(*vlib.Rand) string) {
 		badAt = r.Intn(n)
 	}
 	seps := []string{" ", "\n", "\r\n", "\t", "  \n "}
+	withFault := badAt < 0 && r.Chance(1, 4)
+	var starts, ends, sepEnds []int
 	var sb strings.Builder
 	var docs []string
 	var want []iter.Result[T] // list semantics of the source
@@ -196,11 +198,14 @@ func runStruct[T any](k *vlib.Case, typ string, gen func(*vlib.Rand) string) {
 	for i := 0; i < n; i++ {
 		d := gen(r)
 		if i == badAt {
-			d = vlib.Pick(r, []string{`"x"`, `nope`, `12`, `tru`})
+			d = vlib.Pick(r, []string{`"x"`, `nope`, `12`, `tru`, `]`, `}`})
 		}
 		docs = append(docs, d)
+		starts = append(starts, sb.Len())
 		sb.WriteString(d)
+		ends = append(ends, sb.Len())
 		sb.WriteString(vlib.Pick(r, seps))
+		sepEnds = append(sepEnds, sb.Len())
 		if stopped {
 			continue
 		}
@@ -211,6 +216,16 @@ func runStruct[T any](k *vlib.Case, typ string, gen func(*vlib.Rand) string) {
 		} else {
 			want = append(want, iter.Result[T]{Val: v})
 		}
+	}
+	text := sb.String()
+	fault, faultWD := "", false
+	if withFault {
+		// the reader fails (non-EOF) at a value boundary or inside a document:
+		// the documents complete before the fault, then exactly one error item
+		off, kk, kind := pickFault(r, 0, starts, ends, sepEnds)
+		text = text[:off]
+		want = append(append([]iter.Result[T](nil), want[:kk]...), iter.Result[T]{Err: errSentinel})
+		fault, faultWD = kind, r.Bool()
 	}
 	var chunks []int
 	if r.Chance(2, 3) {
@@ -237,7 +252,7 @@ func runStruct[T any](k *vlib.Case, typ string, gen func(*vlib.Rand) string) {
 	partialN := r.Range(0, 8)
 	closeN := 1 + r.Intn(2)
 
-	k.Logf("json-struct type=%s docs=%q chunks=%v", typ, sb.String(), chunks)
+	k.Logf("json-struct type=%s docs=%q chunks=%v then-reader-fails=%q(with-data=%v)", typ, text, chunks, fault, faultWD)
 	for _, l := range layers {
 		k.Logf("%s", l.String())
 	}
@@ -292,7 +307,7 @@ func runStruct[T any](k *vlib.Case, typ string, gen func(*vlib.Rand) string) {
 	}
 
 	// ---- real pipeline
-	reader := &fragReader{data: []byte(sb.String()), chunks: chunks}
+	reader := &fragReader{data: []byte(text), chunks: chunks, fail: fault != "", failWithData: faultWD}
 	cnt := &counters{}
 	var top iter.Iter[iter.Result[T]] = &countIter[iter.Result[T]]{inner: iter.FromReaderJSON[T](reader), c: cnt}
 	for _, l := range layers {
@@ -325,6 +340,10 @@ func runStruct[T any](k *vlib.Case, typ string, gen func(*vlib.Rand) string) {
 		return render(g.Val) == render(want[e.doc].Val)
 	}
 
+	feat := "" // discriminating input feature for the class
+	if fault != "" {
+		feat = "/iofault-" + fault
+	}
 	var retained []iter.Result[T]
 	failed := false
 	asks := inf
@@ -384,12 +403,12 @@ func runStruct[T any](k *vlib.Case, typ string, gen func(*vlib.Rand) string) {
 			wantList = nil
 			if err == nil && !failed {
 				failed = true
-				k.Fail("json-struct/values/"+typ+"/readallresults", "ReadAllResults reports the first error element", "error", "nil error, values "+gotStr(retained))
+				k.Fail("json-struct/values/"+typ+"/readallresults"+feat, "ReadAllResults reports the first error element", "error", "nil error, values "+gotStr(retained))
 			}
 			retained = nil
 		} else if err != nil && !failed {
 			failed = true
-			k.Fail("json-struct/values/"+typ+"/readallresults", "ReadAllResults succeeds on an error-free list", refStr(final), "error "+err.Error())
+			k.Fail("json-struct/values/"+typ+"/readallresults"+feat, "ReadAllResults succeeds on an error-free list", refStr(final), "error "+err.Error())
 			wantList = nil
 			retained = nil
 		}
@@ -406,7 +425,7 @@ func runStruct[T any](k *vlib.Case, typ string, gen func(*vlib.Rand) string) {
 		}
 		if !ok {
 			failed = true
-			k.Fail("json-struct/values/"+typ+"/"+consumer, "retained list == per-document decoding through the list model", refStr(wantList), gotStr(retained))
+			k.Fail("json-struct/values/"+typ+"/"+consumer+feat, "retained list == per-document decoding through the list model", refStr(wantList), gotStr(retained))
 		}
 	}
 
